@@ -566,6 +566,8 @@ func (p *prop) genE2E(rng *core.Rand) string {
 }
 
 var malformed = []string{
+	"conn", "conn d h1 ok 7365 7365", "conn a h4 ok 7365 7365", "conn a h1 x 7365 7365", "conn a h2 ok 7365 2d", "conn a h1 ok 7365 7365,,7365", "conn a h1 ok 7365 7365,", "conn a h1 ok 7365 5b5d", "conn a h1 ok 7365",
+	"conn a h1 ok 7365 73,73,73,73,73,73,73,73,73", "conn a h1 ok 312e32 7365", "conn a h3 ok 7365 -",
 	"full", "full c ok 7365 7365", "full a x 7365637265742e74657374 7365", "full a ok 7365637265742e74657374 5b5d", "full a ok 7365637265742e74657374",
 	"res", "res a", "res a d", "res a b c", "res ab c",
 	"quic", "quic o0", "quic o1,o1", "quic c1", "quic o1,o2,o3", "quic o1,c1,o1", "quic o1,,p", "quic o1 p", "quic x", "quic o1,c2",
@@ -653,18 +655,22 @@ func (p *prop) Generate(rng *core.Rand, tier string, emit func(string)) {
 	}
 	nPol, nEnf, nBad, nE2E, nCF := 4500, 8000, 800, 600, 1200
 	nQUIC, nFull := 60, 150
+	nConn := 160
 	switch tier {
 	case "thorough":
 		nPol, nEnf, nBad, nE2E, nCF = 60000, 100000, 5000, 6000, 20000
 		nQUIC, nFull = 600, 2000
+		nConn = 2500
 	case "search":
 		nPol, nEnf, nBad, nE2E, nCF = 8000, 12000, 0, 600, 2000
 		nQUIC, nFull = 150, 300
+		nConn = 400
 	}
 	rp, re, rb, r2 := rng.Fork(), rng.Fork(), rng.Fork(), rng.Fork()
 	r3 := rng.Fork()
 	r4 := rng.Fork()
 	r5 := rng.Fork()
+	r6 := rng.Fork()
 	for _, m := range malformed {
 		emit(m)
 	}
@@ -712,6 +718,9 @@ func (p *prop) Generate(rng *core.Rand, tier string, emit func(string)) {
 		}
 		if i < nFull && p.setupFull() == nil {
 			emit(p.genFull(r5))
+		}
+		if i < nConn && p.setupConn() == nil {
+			emit(p.genConn(r6))
 		}
 		if i < nBad {
 			var base string
